@@ -1440,6 +1440,14 @@ func (fr *Frame) callSiteSpecs(b *ssa.BasicBlock, idx int, ins ssa.Instruction, 
 		return
 	}
 	n := fr.siteOrdinal(name, ins)
+	if fr.siteReach == nil {
+		fr.siteReach = map[string]string{}
+	}
+	if prevReach, ok := fr.siteReach[fmt.Sprintf("%s#%d", name, n)]; ok && prevReach != reach {
+		fr.siteReach[fmt.Sprintf("%s#%d", name, n)] = or(prevReach, reach) // a site inside a loop: any execution counts
+	} else {
+		fr.siteReach[fmt.Sprintf("%s#%d", name, n)] = reach
+	}
 	if fr.callResults == nil {
 		fr.callResults = map[string]ssa.Value{}
 	}
